@@ -212,7 +212,12 @@ LOOP:
 					// (nor its run loop stop) between this process ending and the run
 					// loop instantiating the message flow's target
 					wg.Add(1)
-					ps.mch <- throwMessage{Id: *eventId}
+					select {
+					case ps.mch <- throwMessage{Id: *eventId}:
+					case <-ctx.Done():
+						wg.Done()
+						return
+					}
 				}
 			}
 		case ActiveListeningTrace:
